@@ -5,4 +5,4 @@ Extraction "../ocaml/build/c13_model.ml"
   force_types get_schema_namespace x_prefix_issues x_set_schema_prefix x_char_issues x_check_tag_formatting
   x_check_capitalization parse_version_list x_load_schema_version cfg_of x_resolve x_get_tag_entry
   x_group_rules schema83_single schema83_group sch_of table_get contains_standard lib_entries std_entries
-  long_tag org_base_tag x_verdict loaderr_exn reidentify tag_text ext_value.
+  long_tag org_base_tag x_verdict loaderr_exn reidentify tag_text ext_value invalid_parent_span.
